@@ -39,7 +39,7 @@ def harnesses(tier):
                   functions=['zeromq.ZMQSender.send (poll_recv)'], stubs=['fakezmq'], assumptions=['representation invariant of the client table'], budget_s=300)]
     tw = SL.c06_restart('B', {}, {'tk': 400, 'rd': 0}, planted=True)
     B = lambda v, free, fixed=None, rds=(0, 5600): {'topology': 'chain A -> B -> C, source emits a frame every 100 ms', 'victim': v, 'kill instant (ms)': free.get('tk'), 'restart delay (ms)': list(rds) if 'rd' not in (fixed or {}) and 'rd' not in free else free.get('rd', (fixed or {}).get('rd')),
-                                                      'recovery bound': 'CONN_TIMEOUT + 3 poll intervals + 200 ms', 'SUB (re)connect latency': '150 ms (PUSH: none)'}
+                                                      'recovery bound': 'CONN_TIMEOUT + 3 poll intervals + 200 ms + SUB reconnect latency + processing time of B', 'SUB (re)connect latency': '150 ms (PUSH: none)'}
     if q:
         for v in ('A', 'B', 'C'):
             hs.append(SL.H(f'c06.S.restart_{v}', SL.c06_restart(v, {'tk': (300, 500)}, restart_delays=(0, 5600)), twin=tw if v == 'B' else None, bounds=B(v, {'tk': (300, 500)})))
